@@ -1042,33 +1042,19 @@ func waitGroupOrders(s *Stage, closer, sender *proc, k string) string {
 	if sender.g.Parent != nil {
 		parent = sender.g.Parent.An
 	}
-	var add *ir.Step
-	for _, p := range parent.AllPaths() {
-		for i := range p.Steps {
-			st := &p.Steps[i]
-			if isWgAdd(st) && ir.Same(st.A[0], wg) {
-				if add != nil && add.Instr != st.Instr {
-					return "several wg.Add calls"
-				}
-				add = st
-			}
-		}
-	}
-	if add == nil {
-		return "no wg.Add for the WaitGroup the closer waits on"
-	}
-	if inLoop(add.Instr) {
-		return "wg.Add inside a loop"
-	}
-	if !ir.Same(add.A[1], inst) {
-		return fmt.Sprintf("wg.Add(%s) but %s sender instances are spawned", short(add.A[1]), short(inst))
-	}
-	if !instrBefore(add.Instr, sender.g.Spawn.Instr) {
-		return "wg.Add does not precede the go statement"
+	add, why := addAccounts(parent, wg, sender.g, inst)
+	if why != "" {
+		return why
 	}
 	// the closer must be spawned after Add too (or be ordered) – Wait before Add would return early
 	if closer.g != nil && closer.g.Spawn != nil && closer.g.Parent == sender.g.Parent {
-		if !instrBefore(add.Instr, closer.g.Spawn.Instr) {
+		before := instrBefore(add.Instr, closer.g.Spawn.Instr)
+		if !before && inLoop(add.Instr) {
+			// Add(1) per iteration of the spawn loop: the closer must start after that loop
+			h := innermostHeader(add.Instr.Block())
+			before = h != nil && !ir.LoopBlocks(h)[closer.g.Spawn.Instr.Block()] && h.Dominates(closer.g.Spawn.Instr.Block())
+		}
+		if !before {
 			return "the closer may run wg.Wait before wg.Add"
 		}
 	}
@@ -1089,4 +1075,43 @@ func instrBefore(a, b ssa.Instruction) bool {
 		return false
 	}
 	return a.Block().Dominates(b.Block())
+}
+
+// addAccounts: the WaitGroup wg is incremented by exactly the number of instances of goroutine g before they
+// start: either one wg.Add(n) with n = instances ahead of the spawn loop, or wg.Add(1) once per iteration of
+// the spawn loop ahead of the go statement. Returns the Add step.
+func addAccounts(parent *ir.Analysis, wg *ir.Term, g *Goroutine, inst *ir.Term) (*ir.Step, string) {
+	var add *ir.Step
+	for _, p := range parent.AllPaths() {
+		for i := range p.Steps {
+			st := &p.Steps[i]
+			if isWgAdd(st) && ir.Same(st.A[0], wg) {
+				if add != nil && add.Instr != st.Instr {
+					return nil, "several wg.Add calls"
+				}
+				add = st
+			}
+		}
+	}
+	if add == nil {
+		return nil, "no wg.Add for the WaitGroup the closer waits on"
+	}
+	if inLoop(add.Instr) {
+		one, isK := add.A[1].IntConst()
+		sameLoop := g.InLoop && innermostHeader(add.Instr.Block()) == innermostHeader(g.Spawn.Instr.Block())
+		if !(isK && one == 1 && sameLoop) {
+			return nil, "wg.Add inside a loop that is not Add(1) in the spawn loop itself"
+		}
+		if !instrBefore(add.Instr, g.Spawn.Instr) {
+			return nil, "wg.Add(1) does not precede the go statement of the same iteration"
+		}
+		return add, ""
+	}
+	if !ir.Same(add.A[1], inst) {
+		return nil, fmt.Sprintf("wg.Add(%s) but %s sender instances are spawned", short(add.A[1]), short(inst))
+	}
+	if !instrBefore(add.Instr, g.Spawn.Instr) {
+		return nil, "wg.Add does not precede the go statement"
+	}
+	return add, ""
 }
